@@ -27,6 +27,7 @@ type spec struct {
 	Ops   int    `json:"ops"`
 	Yield bool   `json:"yield"`
 	Rep   int    `json:"rep"`
+	Kind  string `json:"kind,omitempty"` // "" (mixer) | startonce
 }
 
 func TestC11(t *testing.T) {
@@ -48,7 +49,19 @@ func TestC11(t *testing.T) {
 			}
 		}
 	}
-	r.Run(cases, func(c *mon.Case) { mix(c, c.Spec.(spec)) })
+	for rep := 0; rep < r.Pick(2, 12); rep++ {
+		for _, tr := range []string{"inproc", "ipc", "tcp"} {
+			cases = append(cases, mon.CaseSpec{Name: "startonce/" + tr, Spec: spec{Kind: "startonce", Tran: tr, G: 4 + rnd.Intn(6), Ops: r.Pick(12, 30), Rep: rep}})
+		}
+	}
+	r.Run(cases, func(c *mon.Case) {
+		sp := c.Spec.(spec)
+		if sp.Kind == "startonce" {
+			startOnce(c, sp)
+			return
+		}
+		mix(c, sp)
+	})
 }
 
 type opRec struct {
